@@ -183,7 +183,7 @@ fn main() {
                 }
                 let uses_handle = |p: &Vec<VOp>| p.iter().any(|o| matches!(o, VOp::HandleUpd(_)));
                 let st = if (uses_handle(&progs[i]) || uses_handle(&progs[j])) && st == Start::Empty { Start::HasA } else { st };
-                drivers.push(VecDriver { flavour: f, start: st, programs: instantiate(&[progs[i].clone(), progs[j].clone()]), ballast: 0 });
+                drivers.push(VecDriver { flavour: f, start: st, programs: instantiate(&[progs[i].clone(), progs[j].clone()]), ballast: 0, salt: 0 });
             }
         }
         // all unordered triples of 1-operation programs (e.g. creator | creator | remover of another key)
@@ -196,7 +196,7 @@ fn main() {
                             if !thorough && st == Start::Empty && ![i, j, k].iter().any(|x| *x <= 1) {
                                 continue;
                             }
-                            drivers.push(VecDriver { flavour: f, start: st, programs: instantiate(&[vec![one[i].clone()], vec![one[j].clone()], vec![one[k].clone()]]), ballast: 0 });
+                            drivers.push(VecDriver { flavour: f, start: st, programs: instantiate(&[vec![one[i].clone()], vec![one[j].clone()], vec![one[k].clone()]]), ballast: 0, salt: 0 });
                         }
                     }
                 }
@@ -213,13 +213,13 @@ fn main() {
                 vec![w(0), w(1), vec![VOp::Collect]],
             ];
             for p in three {
-                drivers.push(VecDriver { flavour: f, start: st, programs: instantiate(&p), ballast: 0 });
+                drivers.push(VecDriver { flavour: f, start: st, programs: instantiate(&p), ballast: 0, salt: 0 });
             }
         }
     }
     // vectors that already hold many children (sizes around powers of two, where a table would grow or a side table
     // would be merged): a creator against a collector / a toucher of an old child / a remover
-    let sizes: &[usize] = if thorough { &[3, 4, 7, 8, 15, 16, 31, 32, 63, 64] } else { &[7, 8, 15, 16, 31, 32] };
+    let sizes: &[usize] = if thorough { &[3, 4, 7, 8, 15, 16, 31, 32, 63, 64, 65, 66, 127, 128, 129] } else { &[7, 8, 15, 16, 31, 32, 63, 64, 65, 128] };
     let mut big = vec![];
     for &n in sizes {
         for (fi, &f) in flavours.iter().enumerate() {
@@ -233,9 +233,16 @@ fn main() {
                 (Start::HasA, vec![vec![w(1), VOp::Collect], vec![VOp::BTouch(n - 1)]]),
                 (Start::HasA, vec![vec![w(1)], vec![VOp::Remove(0), VOp::Collect]]),
                 (Start::RemovedA, vec![vec![w(0)], vec![w(1), VOp::Collect]]),
+                // a collector against a size-preserving remove + create pair
+                (Start::HasA, vec![vec![VOp::Collect], vec![VOp::Remove(0), w(1)]]),
+                (Start::HasA, vec![vec![VOp::Collect], vec![w(1), VOp::Remove(0)]]),
             ];
-            for (st, p) in shapes {
-                big.push(VecDriver { flavour: f, start: st, programs: instantiate(&p), ballast: n });
+            for (si, (st, p)) in shapes.into_iter().enumerate() {
+                // the collector-against-remove+create shapes (the last two): several arrangements of the keys among the others
+                let salts = if si >= 5 && n >= 63 { if thorough { 8 } else { 4 } } else { 1 };
+                for salt in 0..salts {
+                    big.push(VecDriver { flavour: f, start: st, programs: instantiate(&p), ballast: n, salt });
+                }
             }
         }
     }
@@ -243,10 +250,10 @@ fn main() {
     // an old child through a kept handle
     for &f in &flavours {
         let p = vec![vec![VOp::Collect], vec![VOp::W(1, 1.0), VOp::Remove(1), VOp::W(1, 1.0), VOp::HandleUpd(1.0)]];
-        big.push(VecDriver { flavour: f, start: Start::HasA, programs: instantiate(&p), ballast: 0 });
+        big.push(VecDriver { flavour: f, start: Start::HasA, programs: instantiate(&p), ballast: 0, salt: 0 });
         if thorough {
             let p = vec![vec![VOp::Collect], vec![VOp::W(1, 1.0), VOp::Reset, VOp::W(0, 1.0), VOp::Remove(0), VOp::W(1, 1.0), VOp::HandleUpd(1.0)]];
-            big.push(VecDriver { flavour: f, start: Start::HasA, programs: instantiate(&p), ballast: 0 });
+            big.push(VecDriver { flavour: f, start: Start::HasA, programs: instantiate(&p), ballast: 0, salt: 0 });
         }
     }
     let nbig = big.len();
@@ -258,7 +265,7 @@ fn main() {
     // explored with a bound of 2 preemptions instead of unboundedly
     // heavy = 3-thread drivers on HistogramVec and (quick only) the 1-call triples: preemption-bounded (quick 2, thorough 3)
     let (heavy, light): (Vec<VecDriver>, Vec<VecDriver>) = drivers.into_iter().partition(|d| d.programs.len() == 3 && (d.flavour == VFlavour::HistogramList || (!thorough && d.programs.iter().all(|p| p.len() == 1))));
-    let cl = |d: &VecDriver| VecDriver { flavour: d.flavour, start: d.start, programs: d.programs.clone(), ballast: d.ballast };
+    let cl = |d: &VecDriver| VecDriver { flavour: d.flavour, start: d.start, programs: d.programs.clone(), ballast: d.ballast, salt: d.salt };
     // deviation budget (one spurious weak-CAS failure): thorough tier, two-thread drivers with at most 3 calls
     let (dev, nodev): (Vec<VecDriver>, Vec<VecDriver>) = light.into_iter().partition(|d| thorough && d.programs.len() == 2 && d.programs.iter().map(|p| expand(p).len()).sum::<usize>() <= 3);
     SPURIOUS_BUDGET.store(1, std::sync::atomic::Ordering::Relaxed);
